@@ -273,3 +273,25 @@ V('en-new-binary-label', EN, 'op_string="gbx",', 'op_string="gbc",', ['C19', 'C0
 V('jx-value-unguarded', JX, "            if isinstance(x.feature, UnaryFeature):\n                if x.feature.value is None:", "            if True:\n                if x.feature.value is None:", ['C19'])
 V('pauto-pos-subscript', 'depccg/printer/auto.py', "            pos = node.token.get('pos', 'POS')\n            return f'(<L {cat} {pos} {pos} {word} {cat}>)'", "            pos = node.token['pos']\n            return f'(<L {cat} {pos} {pos} {word} {cat}>)'", ['C19'])
 V('pp-silent-guarded-subscript', PP, "token.get('pos', 'XX')", "(token['pos'] if 'pos' in token else 'XX')", ['C19'], expect='silent')
+
+# ---------------------------------------------------------------- C08
+PA = 'depccg/printer/auto.py'
+UT = 'depccg/utils.py'
+V('pa-leaf-extra-field', PA, "return f'(<L {cat} {pos} {pos} {word} {cat}>)'", "return f'(<L {cat} {pos} {word} {cat}>)'", ['C08'])
+V('pa-leaf-word-pos-swapped', PA, "return f'(<L {cat} {pos} {pos} {word} {cat}>)'", "return f'(<L {cat} {word} {pos} {pos} {cat}>)'", ['C08'])
+V('pa-head-polarity', PA, "            head_is_left = 0 if node.head_is_left else 1\n            return f'(<T {cat} {head_is_left} {num_children}> {children} )'", "            head_is_left = 1 if node.head_is_left else 0\n            return f'(<T {cat} {head_is_left} {num_children}> {children} )'", ['C08', 'C07'])
+V('pa-no-escape', PA, "            cat = node.cat\n            word = denormalize(node.word)\n            pos = node.token.get('pos', 'POS')", "            cat = node.cat\n            word = node.word\n            pos = node.token.get('pos', 'POS')", ['C08'])
+V('pa-children-newline', PA, "            children = ' '.join(rec(child) for child in node.children)\n            num_children = len(node.children)\n            head_is_left = 0 if node.head_is_left else 1\n            return f'(<T {cat} {head_is_left} {num_children}> {children} )'",
+  "            children = ''.join(rec(child) for child in node.children)\n            num_children = len(node.children)\n            head_is_left = 0 if node.head_is_left else 1\n            return f'(<T {cat} {head_is_left} {num_children}> {children} )'", ['C08'])
+V('rd-auto-head-reads-1', RD, "head_is_left = self.next() == '0'", "head_is_left = self.next() == '1'", ['C08'])
+V('rd-auto-skips-field', RD, "        tag1 = self.next()  # modified POS tag\n        tag2 = self.next()  # original POS\n", "        tag1 = self.next()  # modified POS tag\n        tag2 = tag1\n", ['C08'])
+V('rd-auto-cat-from-tag', RD, "        self.next()\n        cat = Category.parse(self.next())\n        tag1 = self.next()  # modified POS tag", "        self.next()\n        raw = self.next()\n        tag1 = self.next()  # modified POS tag\n        cat = Category.parse(tag1)", ['C08'])
+V('rd-auto-unescapes', RD, "        self.tokens.append(token)\n        if word == '-LRB-':", "        token['word'] = normalize(word)\n        self.tokens.append(token)\n        if word == '-LRB-':", ['C08'])
+V('rd-auto-no-closing', RD, "            children.append(self.next_node())\n        self.next()\n        if len(children) == 2:", "            children.append(self.next_node())\n        if len(children) == 2:", ['C08'])
+V('pc-pos-default-differs', PC, "auto_pos = token.get('pos', 'POS')", "auto_pos = token.get('pos', '_')", ['C08'])
+V('pc-fragment-head-polarity', PC, "            head_is_left = 0 if node.head_is_left else 1\n            stack.append", "            head_is_left = 1 if node.head_is_left else 0\n            stack.append", ['C08', 'C07'])
+V('pc-no-closing', PC, "children = '\\n'.join(rec(child) for child in node.children) + ' )'", "children = '\\n'.join(rec(child) for child in node.children)", ['C08'])
+V('ut-denorm-not-idempotent', UT, '        return "-LRB-"', '        return "<LRB>"', ['C08'])
+V('ut-denorm-chain', UT, '    word = word.replace(">", "-RAB-")', '    word = word.replace(">", "-RAB>")', ['C08'])
+V('pa-silent-local-names', PA, "            cat = node.cat\n            word = denormalize(node.word)\n            pos = node.token.get('pos', 'POS')\n            return f'(<L {cat} {pos} {pos} {word} {cat}>)'",
+  "            c = node.cat\n            w = denormalize(node.word)\n            tag = node.token.get('pos', 'POS')\n            return f'(<L {c} {tag} {tag} {w} {c}>)'", ['C08'], expect='silent')
